@@ -655,6 +655,11 @@ func (c *handlerCtx) handleReply() {
 	if c.callCmd.stat.OK() {
 		stat := c.input.Status()
 		if stat.OK() {
+			// the read loop recorded in c.stat that the reply body could not be decoded
+			// into the caller's result: the call must not complete as OK
+			stat = c.stat
+		}
+		if stat.OK() {
 			stat = c.pluginContainer.postReadReplyBody(c)
 		}
 		c.callCmd.stat = stat
